@@ -10,7 +10,10 @@ Tie to /repo (C, hand-written model + correspondence):
     Model/Call.lean (driver at Float);
   * tree stream: random expression trees built with the real expression classes over real
     default_ops / proximal leaves vs the model's `callO` / `callI` on the same tree, in the
-    three modes out-of-place, in-place (NaN-free garbage in out), aliased (out is x).
+    three modes out-of-place, in-place (garbage / NaN / inf in out), aliased (out is x);
+  * product-space stream: ProductSpaceOperator (random sparsity, several blocks per row, empty
+    rows), BroadcastOperator, ReductionOperator, DiagonalOperator (also aliased),
+    ComponentProjection, ComponentProjectionAdjoint with random trees as blocks vs the model.
 Oracle (independent of the model): every concrete Operator/Functional class reachable from
 odl.* (introspection + constructor table; adjoint/derivative/inverse/gradient/proximal/
 convex_conj of every instance one level deep): op(x) in range; op(x, out=y) is y and equals
@@ -40,8 +43,8 @@ TRUSTED = ['hand-written model Model/Call.lean (dispatch, bridges, expression cl
 ASSUMPTIONS = ['leaf operator classes without an executable model are opaque: the leaf contract '
                '(fresh out-of-place result, in-place result independent of the old content of '
                'out, no write to x) is established for them on sampled inputs only (a test)',
-               'membership checks of the inner calls made by expression classes are not '
-               'modelled (their constructors enforce matching spaces)',
+               'of the membership checks of the inner calls made by expression classes only the '
+               'rejection of out by a functional is modelled (constructors enforce matching spaces)',
                'identity aliasing only; IEEE rounding outside the model (comparison of in-place '
                'and out-of-place results with 1e-9 relative tolerance)']
 
@@ -622,9 +625,12 @@ def run_zoo(ctx, deep=False):
     ctx.extra['modelled_classes'] = [
         'Operator.__call__/__new__ dispatch', 'OperatorSum', 'OperatorVectorSum', 'OperatorComp',
         'OperatorPointwiseProduct', 'OperatorLeftScalarMult', 'OperatorRightScalarMult',
-        'OperatorLeftVectorMult', 'OperatorRightVectorMult', 'ScalingOperator', 'IdentityOperator',
+        'OperatorLeftVectorMult', 'OperatorRightVectorMult', 'FunctionalLeftVectorMult',
+        'ProductSpaceOperator', 'BroadcastOperator', 'ReductionOperator', 'DiagonalOperator',
+        'ComponentProjection', 'ComponentProjectionAdjoint', 'ScalingOperator', 'IdentityOperator',
         'ConstantOperator', 'MultiplyOperator', 'PowerOperator', 'ZeroOperator',
-        'ComplexModulusSquared(real)', 'all proximal classes of proximal_operators.py']
+        'ComplexModulusSquared(real)', 'RealPart(real)', 'InnerProductOperator',
+        'all proximal classes of proximal_operators.py']
     ctx.extra['opaque_leaf_classes'] = sorted(
         t for t in tested if t not in ('OperatorSum', 'OperatorVectorSum', 'OperatorComp',
                                        'OperatorPointwiseProduct', 'OperatorLeftScalarMult',
@@ -795,7 +801,10 @@ def rand_tree(rng, depth, n, data):
 
     def leaf():
         k = rng.choice(['scal', 'scal', 'const', 'mult', 'pow', 'zero', 'modsq', 'prox', 'prox',
-                        'prox', 'id'])
+                        'prox', 'id', 'real'])
+        if k == 'real':
+            # RealPart on a real space returns its argument itself
+            return ['real'], (lambda: odl.RealPart(space)), 'real'
         if k == 'scal':
             c = rng.choice([2.0, -1.0, 0.5, -0.25, 0.0])
             return ['scal:{}'.format(bits(c))], (lambda: odl.ScalingOperator(space, c)), 'scal'
@@ -850,9 +859,48 @@ def rand_tree(rng, depth, n, data):
             return odl.solvers.IndicatorSimplex(space, data['radius']).proximal(sigma)
         return ['prox:{}:{}'.format(name, fl)], mk, 'prox:' + name
 
+    def ftree(d):
+        """functional subtree X -> R"""
+        kk = rng.choice(['inner', 'inner', 'l', 'r', 'S', 'P', 'C', 'rv']) if d > 0 else 'inner'
+        if kk == 'inner':
+            w = vec()
+            return ['inner:' + bl(w, '|')], (lambda: odl.InnerProductOperator(space.element(w.copy()))), \
+                'inner'
+        if kk in ('S', 'P'):
+            ta, ma, sa = ftree(d - 1)
+            tb, mb, sb = ftree(d - 1)
+            cls = {'S': odl.OperatorSum, 'P': odl.OperatorPointwiseProduct}[kk]
+            return [kk] + ta + tb, (lambda: cls(ma(), mb())), '{}({},{})'.format(kk, sa, sb)
+        if kk == 'C':
+            ta, ma, sa = ftree(d - 1)
+            tb, mb, sb = rand_tree(rng, d - 1, n, data)
+            return ['C'] + ta + tb, (lambda: odl.OperatorComp(ma(), mb())), 'C({},{})'.format(sa, sb)
+        ta, ma, sa = ftree(d - 1)
+        if kk == 'rv':
+            v = vec()
+            return ['rv:' + bl(v, '|')] + ta, \
+                (lambda: odl.OperatorRightVectorMult(ma(), space.element(v.copy()))), 'rv({})'.format(sa)
+        c = rng.choice([2.0, -1.0, 0.5])
+        cls = {'l': odl.OperatorLeftScalarMult, 'r': odl.OperatorRightScalarMult}[kk]
+        return ['{}:{}'.format(kk, bits(c))] + ta, (lambda: cls(ma(), c)), '{}({})'.format(kk, sa)
+
     if depth == 0 or rng.random() < 0.2:
         return leaf()
-    k = rng.choice(['S', 'C', 'P', 'V', 'l', 'r', 'lv', 'rv', 'S', 'C', 'V'])
+    k = rng.choice(['S', 'C', 'P', 'V', 'l', 'r', 'lv', 'rv', 'S', 'C', 'V', 'fl', 'Cf'])
+    if k == 'fl':
+        # FunctionalLeftVectorMult(functional, vector)
+        tf, mf, sf = ftree(depth - 1)
+        v = vec()
+        return ['fl:' + bl(v, '|')] + tf, \
+            (lambda: odl.FunctionalLeftVectorMult(mf(), space.element(v.copy()))), 'fl({})'.format(sf)
+    if k == 'Cf':
+        # OperatorComp whose right factor is a functional
+        tf, mf, sf = ftree(depth - 1)
+        v = vec()
+        return ['C', 'fmult:' + bl(v, '|')] + tf, \
+            (lambda: odl.OperatorComp(odl.MultiplyOperator(space.element(v.copy()),
+                                                           domain=odl.RealNumbers()), mf())), \
+            'C(fmult,{})'.format(sf)
     if k in ('S', 'C', 'P'):
         ta, ma, sa = rand_tree(rng, depth - 1, n, data)
         tb, mb, sb = rand_tree(rng, depth - 1, n, data)
@@ -886,6 +934,9 @@ def run_trees(ctx, count):
         toks, mk, shape = rand_tree(rng, rng.choice([1, 2, 3, 4]), n, data)
         xv = np.array([rng.randint(-16, 16) / 8.0 for _ in range(n)])
         yv = np.array([(-1) ** k * (1234.5 + 1e5 * k) for k in range(n)])
+        pre = rng.choice(['garbage', 'nan', 'inf'])
+        if pre != 'garbage':
+            yv = np.full(n, np.nan if pre == 'nan' else np.inf)
         desc = {'kind': 'tree', 'tree': ','.join(toks)[:400], 'shape': shape[:200], 'n': n,
                 'x': xv.tolist()}
         try:
@@ -941,8 +992,8 @@ def run_trees(ctx, count):
                          'result': r.val.tolist() if r.status == 'ok' else r.status}
                  if desc['n'] <= 2 and len(ctx.samples) < 10 else None)
         for t in set(desc['tree'].replace(':', ',').split(',')):
-            if t in ('S', 'C', 'P', 'V', 'l', 'r', 'lv', 'rv', 'scal', 'const', 'mult', 'pow', 'zero',
-                     'modsq', 'prox'):
+            if t in ('S', 'C', 'P', 'V', 'l', 'r', 'lv', 'rv', 'fl', 'scal', 'const', 'mult', 'pow',
+                     'zero', 'modsq', 'prox', 'real', 'inner', 'fmult'):
                 ctx.hit('tree/' + t)
         if r.status != 'ok':
             if not ans.startswith(':'.join(r.status.split(':')[:2])):
@@ -960,11 +1011,172 @@ def run_trees(ctx, count):
                          'x after={}'.format(parse_bl(f['x'])[:6]), stream='tree')
 
 
+# ---------------------------------------------------------------------------
+# product-space stream: ProductSpaceOperator / Broadcast / Reduction / Diagonal /
+# ComponentProjection(+Adjoint) vs the model
+
+def run_pso(ctx, count):
+    import odl
+    rng = ctx.rng
+    lines, pend = [], []
+    for _ in range(count):
+        n = rng.choice([1, 2, 3])
+        space = odl.rn(n)
+        data = dict(space=space, lam=rng.choice([1.0, 0.5, 2.0]), sigma=rng.choice([1.0, 0.5, 2.0]),
+                    gamma=rng.choice([0.5, 1.0]), radius=rng.choice([1.0, 2.0]),
+                    g=np.array([rng.randint(1, 16) / 8.0 for _ in range(n)]),
+                    sig=np.array([rng.choice([0.5, 1.0, 2.0]) for _ in range(n)]),
+                    lo=np.array([rng.choice([-1.0, -0.5, 0.0]) for _ in range(n)]),
+                    up=np.array([rng.choice([0.5, 1.0, 2.0]) for _ in range(n)]))
+        kind = rng.choice(['pso', 'pso', 'bcast', 'red', 'diag', 'diag', 'proj', 'projadj'])
+        blocks = {}
+        idx = 0
+
+        def block():
+            return rand_tree(rng, rng.choice([0, 1, 2]), n, data)
+        try:
+            if kind == 'pso':
+                m, nc = rng.choice([1, 2, 3]), rng.choice([1, 2, 3])
+                for i in range(m):
+                    for j in range(nc):
+                        if rng.random() < 0.55:
+                            blocks[(i, j)] = block()
+                if not blocks:
+                    blocks[(0, 0)] = block()
+                mat = [[blocks[(i, j)][1]() if (i, j) in blocks else None for j in range(nc)]
+                       for i in range(m)]
+                op = odl.ProductSpaceOperator(mat, domain=odl.ProductSpace(space, nc),
+                                              range=odl.ProductSpace(space, m))
+                coo = op.ops
+            elif kind in ('bcast', 'red', 'diag'):
+                k = rng.choice([1, 2, 3])
+                bl_ = [block() for _ in range(k)]
+                ops = [b[1]() for b in bl_]
+                if kind == 'bcast':
+                    op, m, nc = odl.BroadcastOperator(*ops), k, 1
+                    blocks = {(i, 0): bl_[i] for i in range(k)}
+                    coo = op.prod_op.ops
+                elif kind == 'red':
+                    op, m, nc = odl.ReductionOperator(*ops), 1, k
+                    blocks = {(0, j): bl_[j] for j in range(k)}
+                    coo = op.prod_op.ops
+                else:
+                    op, m, nc = odl.DiagonalOperator(*ops), k, k
+                    blocks = {(i, i): bl_[i] for i in range(k)}
+                    coo = op.ops
+            elif kind == 'proj':
+                m, nc = 1, rng.choice([1, 2, 3])
+                idx = rng.randrange(nc)
+                op = odl.ComponentProjection(odl.ProductSpace(space, nc), idx)
+                coo = None
+            else:
+                m, nc = rng.choice([1, 2, 3]), 1
+                idx = rng.randrange(m)
+                op = odl.ComponentProjectionAdjoint(odl.ProductSpace(space, m), idx)
+                coo = None
+        except Exception as e:  # noqa
+            ctx.disagree({'kind': 'pso', 'class': kind}, 'cannot build: {}: {}'.format(
+                type(e).__name__, str(e)[:100]), 'model exists', stream='pso')
+            continue
+        if coo is not None:
+            order = list(zip([int(t) for t in coo.row], [int(t) for t in coo.col]))
+            entries = '@'.join('{}~{}~{}'.format(i, j, ','.join(blocks[(i, j)][0]))
+                               for i, j in order) or '-'
+            shape = '{}[{}]'.format(kind, ';'.join('{}{}:{}'.format(i, j, blocks[(i, j)][2])
+                                                   for i, j in order))
+        else:
+            entries, shape = '-', '{}[{}]'.format(kind, idx)
+        xs = [np.array([rng.randint(-16, 16) / 8.0 for _ in range(n)]) for _ in range(nc)]
+        pre = rng.choice(['garbage', 'nan', 'inf'])
+        ys = [np.full(n, {'garbage': 777.25 + i, 'nan': np.nan, 'inf': np.inf}[pre])
+              for i in range(m)]
+        x_single = kind in ('bcast', 'projadj')
+        y_single = kind in ('red', 'proj')
+
+        def mkx():
+            return space.element(xs[0].copy()) if x_single else \
+                op.domain.element([v.copy() for v in xs])
+
+        def mky():
+            return space.element(ys[0].copy()) if y_single else \
+                op.range.element([v.copy() for v in ys])
+        desc = {'kind': 'pso', 'class': kind, 'shape': shape[:300], 'n': n, 'm': m, 'nc': nc,
+                'x': [v.tolist() for v in xs], 'prefill': pre}
+        res, xa = {}, {}
+        x = mkx()
+        res['oop'] = safe_call(op, x)
+        xa['oop'] = snapshot(x)
+        x = mkx()
+        y = mky()
+        res['ip'] = safe_call(op, x, out=y)
+        xa['ip'] = snapshot(x)
+        ret_ok = {'ip': res['ip'].obj is y}
+        modes = ['oop', 'ip']
+        if kind == 'diag':
+            x = mkx()
+            res['alias'] = safe_call(op, x, out=x)
+            xa['alias'] = None
+            ret_ok['alias'] = res['alias'].obj is x
+            modes.append('alias')
+        key = 'pso {}'.format(shape[:120])
+        x0 = np.concatenate(xs)
+        if res['oop'].status == 'ok':
+            if not bitsame(xa['oop'], x0):
+                ctx.violation(key + ' check=input-unchanged-oop', 'x modified by op(x)', desc)
+            for mode in modes[1:]:
+                if res[mode].status != 'ok':
+                    ctx.violation(key + ' check=' + mode, '{} call raises {}'.format(
+                        mode, res[mode].status), desc)
+                    continue
+                if not ret_ok[mode]:
+                    ctx.violation(key + ' check=returns-out', mode + ' call did not return out', desc)
+                if not same(res[mode].val, res['oop'].val):
+                    ctx.violation(key + ' check={}-equals-oop prefill={}'.format(mode, pre),
+                                  '{} result {} differs from op(x) = {}'.format(
+                                      mode, res[mode].val[:8], res['oop'].val[:8]), desc)
+            if res['ip'].status == 'ok' and not bitsame(xa['ip'], x0):
+                ctx.violation(key + ' check=input-unchanged-ip', 'x modified by op(x, out=y)', desc)
+        base = ('kind={} m={} nc={} n={} idx={} entries={} x={} y={} lam={} sigma={} gamma={} '
+                'radius={} eps=0 g={} sig={} lo={} up={}').format(
+            kind, m, nc, n, idx, entries, ';'.join(bl(v) for v in xs), ';'.join(bl(v) for v in ys),
+            bits(data['lam']), bits(data['sigma']), bits(data['gamma']), bits(data['radius']),
+            bl(data['g']), bl(data['sig']), bl(data['lo']), bl(data['up']))
+        for mode in modes:
+            lines.append('pso mode={} {}'.format(mode, base))
+            pend.append((desc, shape, mode, res[mode], xa[mode]))
+    outs = core.run_driver('C03', lines)
+    for (desc, shape, mode, r, xafter), ans in zip(pend, outs):
+        d = dict(desc, mode=mode)
+        nontrivial = r.status == 'ok' and np.any(r.val != 0)
+        ctx.case(('pso', shape, mode) if nontrivial else None,
+                 sample={'pso': shape, 'mode': mode, 'x': desc['x'],
+                         'result': r.val.tolist() if r.status == 'ok' else r.status}
+                 if desc['n'] == 1 and len(ctx.samples) < 12 else None)
+        ctx.hit('pso/{}/{}'.format(desc['class'], mode))
+        if r.status != 'ok':
+            if not ans.startswith(':'.join(r.status.split(':')[:2])):
+                ctx.disagree(d, r.status, ans[:100], stream='pso')
+            continue
+        if not ans.startswith('ok '):
+            ctx.disagree(d, 'ok', ans[:100], stream='pso')
+            continue
+        f = dict(t.split('=', 1) for t in ans.split()[1:])
+        mv = np.concatenate([parse_bl(t) for t in f['vals'].split(';')])
+        if not same(mv, r.val):
+            ctx.disagree(d, 'val={}'.format(r.val[:8]), 'val={}'.format(mv[:8]), stream='pso')
+        elif xafter is not None:
+            mx = np.concatenate([parse_bl(t) for t in f['x'].split(';')])
+            if not same(mx, xafter):
+                ctx.disagree(d, 'x after={}'.format(xafter[:8]), 'x after={}'.format(mx[:8]),
+                             stream='pso')
+
+
 def run(ctx):
     warnings.simplefilter('ignore')
     np.seterr(all='ignore')
     run_dispatch(ctx)
     run_trees(ctx, 150 if ctx.quick else 4000)
+    run_pso(ctx, 120 if ctx.quick else 2500)
     run_zoo(ctx, deep=not ctx.quick)
     if not ctx.quick:
         for _ in range(3):   # further input draws for every instance
@@ -977,6 +1189,7 @@ def search(ctx, broken):
     np.seterr(all='ignore')
     run_zoo(ctx, deep=True)
     run_trees(ctx, 1500)
+    run_pso(ctx, 1000)
 
 
 def replay(ctx, case):
@@ -1011,6 +1224,12 @@ def replay(ctx, case):
         run_dispatch(sub)
         hits = [v for v in sub.violations
                 if all(v['replay'].get(k) == case.get(k) for k in ('sig', 'fn', 'x', 'out'))]
+        return hits[0]['what'] if hits else None
+    if case.get('kind') == 'pso':
+        sub = Ctx2()
+        sub.rng = random.Random(0)
+        run_pso(sub, 400)
+        hits = [v for v in sub.violations if v['replay'].get('class') == case.get('class')]
         return hits[0]['what'] if hits else None
     if case.get('kind') == 'tree':
         sub = Ctx2()
